@@ -483,6 +483,12 @@ class SNum(Sym):
 
     def __pos__(self): return self
 
+    def __bool__(self):
+        # python truthiness of a number: x != 0 (forks when symbolic)
+        if self.c is not None:
+            return self.c != 0
+        return bool(self != 0)
+
     # true division: always real
     @_defer
     def __truediv__(self, o): return _truediv(self, o)
